@@ -57,7 +57,7 @@ func c06Opts() bridge.GenOpts {
 	o.MaxVals = 5
 	o.Denoms = 3
 	o.Holders = true
-	o.Weights = map[string]int{"oprice": 8, "oholders": 5, "block": 30, "deposit": 8, "transfer": 8, "xround": 6}
+	o.Weights = map[string]int{"oprice": 8, "oholders": 5, "block": 30, "deposit": 8, "transfer": 8, "xround": 6, "xexpire": 3}
 	return o
 }
 
